@@ -51,7 +51,7 @@ def _try(fn, *a):
         return f'{ERR}:LookupError'
 
 
-def api_transcript(w, reltypes=(), smap=None, forms=()):
+def api_transcript(w, reltypes=(), smap=None, forms=(), targets=False):
     search_forms = tuple(forms)
     """Canonical transcript of what the public API reports through Wordnet *w*.
     Entities are named 'lexspec|id'. Ordered where the API promises order."""
@@ -129,6 +129,12 @@ def api_transcript(w, reltypes=(), smap=None, forms=()):
             'members': mem if isinstance(mem, str) else [ent(s) for s in mem],
             'meta': ss.metadata(), 'relations': rels,
         }
+        if targets:
+            # relation_map() is keyed by Relation and therefore shows ONE target per declared relation; relations()
+            # lists every target synset (several local synsets may answer one ILI-mapped relation)
+            rl = _try(ss.relations)
+            T['synsets'][ent(ss)]['targets'] = rl if isinstance(rl, str) else sorted(
+                [name, ent(t)] for name, ts in rl.items() for t in ts)
     T['ilis'] = sorted(([i.id, i.status, i.definition()] for i in w.ilis()), key=repr)
     if search_forms:
         T['search'] = {q: [sorted(ent(x) for x in w.words(q)), sorted(ent(x) for x in w.senses(q)),
